@@ -3,9 +3,14 @@
     removed, is an even number of hex digits, and returns the byte values of the digit pairs
     (Latin-1: byte = code point); everything else is InvalidHexStringConstant.  That payload
     ranges partition the literal buffer and that every payload equals the unquoted token text
-    is tested on every token of every input by the check's oracle (independent unquoting). *)
+    is tested on every token of every input by the check's oracle (independent unquoting).
+    For macro-free texts (release profile) [C07_macro_free_ranges] proves the partition clause outright:
+    the string payloads of successive tokens are consecutive ranges (a0,a1) (a1,a2) ... starting at 0
+    and ending at the length of the literal buffer (corollary of the C11 simulation; the content of
+    each range is the reference's unquoted text by the same theorem). *)
 From Coq Require Import NArith List Bool.
-From SasLexer Require Import Gen.TokenType Gen.ErrorKind Gen.Channel Model.Base Model.Helpers Model.Numeric Proofs.HexString.
+From SasLexer Require Import Gen.TokenType Gen.ErrorKind Gen.Channel Model.Base Model.Helpers Model.Numeric Model.Core Model.Lexer3 Spec.RefLex Proofs.HexString
+     Proofs.RefLexRanges Proofs.OcBase Proofs.OcWhole Proofs.OcAll Proofs.MacroFree.
 Import ListNotations.
 Open Scope N_scope.
 
@@ -23,3 +28,12 @@ Example c07_example :
   parse_sas_hex_string [39; 52; 49; 44; 52; 50; 39; 120] = inl [65; 66] /\
   parse_sas_hex_string [39; 43; 49; 39; 120] = inr E_InvalidHexStringConstant.
 Proof. split; reflexivity. Qed.
+
+(** macro-free texts: the string payload ranges tile the literal buffer;
+    [contig a rs z] = rs is (a,a1) (a1,a2) ... (ak,z) with a <= a1 <= ... <= z *)
+Theorem C07_macro_free_ranges : forall (msep : bool) (src : list char),
+  macro_free (body_of src) = true ->
+  let r := lex (mkCfg false msep) src in
+  contig 0 (tranges (b_toks (lr_buffer r))) (len (b_lit (lr_buffer r))).
+Proof. exact mf_C07_macro_free_ranges. Qed.
+Print Assumptions C07_macro_free_ranges.
